@@ -156,7 +156,7 @@ pub fn gen(out: &mut Out, thorough: bool) {
     } } }
     out.exhaustive.push(format!("all pairs (bare and inside an array) of {} number spellings with equal or near-equal numeric value (zeros, 1/1.0/1e0, 10/1E1, integers around 2^53 and 2^64 with decimals, over/underflowing exponents), all triples of the first {} and of the 2^53 group", nums.len(), ntri));
     // generated values with near-copies
-    let n = if thorough { 40000 } else { 6000 };
+    let n = if thorough { 400000 } else { 6000 };
     for _ in 0..n {
         let a = crate::print::gen_value(&mut out.rng, 0, 3);
         let b = if out.rng.chance(1, 8) { a.clone() } else { mutate(&mut out.rng, &a) };
@@ -179,7 +179,7 @@ pub fn gen(out: &mut Out, thorough: bool) {
     ];
     for (p, q) in same { l(format!("ord hist {} {}", p, q), out); l(format!("ord hist {} {}", q, p), out); }
     // random history pairs: build the same list by a random interleaving of pushes/push_fronts/removals
-    let nh = if thorough { 3000 } else { 500 };
+    let nh = if thorough { 30000 } else { 500 };
     for _ in 0..nh {
         let len = out.rng.range(1, 6) as usize;
         let es: Vec<(String, &str)> = (0..len).map(|_| (format!("6{}", out.rng.below(3) + 1), *out.rng.pick(&["n", "t", "#31;"]))).collect();
